@@ -334,6 +334,18 @@ fn gen_showdown(tier: &str, rng: &mut Rng, w: &mut dyn Write) {
         cards[victim] = cards[rng.below(5) as usize];
         emit_showdown(w, probs[i % probs.len()], &cards[..5].to_vec(), &cards[5..].to_vec());
     }
+    // histories: a rejected table (the LAST seat collides with the board, so every earlier seat has been looked at)
+    // immediately followed by a valid table of the same size on the same thread -- whatever the rejected call left
+    // behind (scratch buffers, cached flags) must not leak into the next showdown
+    for i in 0..(if thorough { 40_000 } else { 3_000 }) {
+        let np = 2 + rng.below(6) as usize;
+        let mut cards: Vec<usize> = rng.distinct(5 + 2 * np, 52).into_iter().map(|x| x as usize).collect();
+        let k = cards.len();
+        cards[k - 1 - (i % 2)] = cards[rng.below(5) as usize];
+        emit_showdown(w, probs[i % probs.len()], &cards[..5].to_vec(), &cards[5..].to_vec());
+        let valid: Vec<usize> = rng.distinct(5 + 2 * np, 52).into_iter().map(|x| x as usize).collect();
+        emit_showdown(w, probs[i % probs.len()], &valid[..5], &valid[5..]);
+    }
     // players sharing hole cards with each other (outside C03's hypothesis; model vs implementation only)
     for i in 0..(if thorough { 10_000 } else { 1_000 }) {
         let np = 2 + rng.below(4) as usize;
